@@ -399,7 +399,9 @@ impl<T: Read + Seek> Iterator for PointCloudReaderSimple<'_, T> {
                 convert_intensity(p);
             }
         }
-        if self.transform {
+        // Without a pose there is nothing to apply. Multiplying with the identity is not
+        // neutral for floats: it turns -0.0 into 0.0 and finite values next to an infinite one into NaN.
+        if self.transform && self.pc.transform.is_some() {
             for p in self.buffer.iter_mut() {
                 transform_point(p, &self.rotation, &self.translation);
             }
